@@ -195,6 +195,21 @@ func main() {
 						}
 					}
 				}
+				if ct.Opts["safety"] == "off" {
+					// partial correctness only: the clause obligations are proved for runs that do not panic; the safety
+					// sites of this function are not claimed (reported as a warning in the evidence)
+					kept := fr.Obls[:0]
+					dropped := 0
+					for _, o := range fr.Obls {
+						if (o.Kind == "safe" || o.Kind == "conv") && !o.Canary {
+							dropped++
+							continue
+						}
+						kept = append(kept, o)
+					}
+					fr.Obls = kept
+					fo.Warnings = append(fo.Warnings, fmt.Sprintf("opt safety off: %d safety obligations of this function are NOT checked under this contract (clauses hold for runs that do not panic)", dropped))
+				}
 				if dumpRe != nil {
 					dumpVCs(fr, dumpRe, *scratch)
 				}
